@@ -853,6 +853,34 @@ pub fn child(path: &std::path::Path) -> i32 {
   child_case::<Doc>(path, check_inner)
 }
 
+/// the same stage, driven by bytes (coverage-guided tier). Inside the fuzz target the documents
+/// that need a child process (cyclic utilities: the listed finding) are skipped.
+pub fn erased(in_target: bool) -> crate::fuzz::Erased {
+  let corpus: &'static Corpus = Box::leak(Box::new(Corpus::load()));
+  let opts: &'static SrcOpts = Box::leak(Box::new(stage_opts()));
+  crate::fuzz::Erased::generic(
+    "C12",
+    "docs",
+    move || strategy(opts),
+    move |c, st| interpret(corpus, opts, c, st),
+    move |d: &Doc, st: &mut Stats| {
+      if in_target && d.isolate {
+        st.label("skipped_in_fuzz_target(needs a child process)");
+        return Ok(());
+      }
+      check(d, st)
+    },
+  )
+}
+
+fn stage_opts() -> SrcOpts {
+  let mut opts = SrcOpts::all_langs();
+  opts.allow_crlf = false;
+  opts.max_bytes = 1500;
+  opts.synth_weight = 4;
+  opts
+}
+
 pub fn run(cfg: &RunCfg) -> i32 {
   let mut report = Report::new(
     cfg,
@@ -866,13 +894,11 @@ pub fn run(cfg: &RunCfg) -> i32 {
   }
   let corpus = Corpus::load();
   crate::replay_known::<Doc>(&mut report, &known, check);
-  let mut opts = SrcOpts::all_langs();
-  opts.allow_crlf = false;
-  opts.max_bytes = 1500;
-  opts.synth_weight = 4;
+  let opts = stage_opts();
   let total = cfg.budget(12_000, 300_000);
   let o = drive(cfg, "docs", total, &known, || strategy(&opts), |c, st| interpret(&corpus, &opts, c, st), check);
   report.absorb("docs", o);
   report.floor("perturbed_violating_document", 0.3, "evaluations");
+  crate::fuzz::stage(cfg, &mut report, &known, 20000);
   report.finish()
 }
